@@ -183,12 +183,18 @@ fn psd_case(g: &mut Gen, S: &Mat, Z: &Mat, X: &Mat, Y: &Mat, tag: &str) {
         let mut hsz = garbage(nv);
         let mut work = garbage(nv);
         c.mul_Hs(&mut hsz, &z, &mut work);
-        let o = drive(&mut c, &z, &x, &y, 1.0, 0.0, 0.5, nv * (nv + 1) / 2, false);
-        (ok, lam, rr, ri, wz, wits, hsz, o, c.Hs_is_diagonal(), l1, l2, su, ss, svt, isq)
+        let o = drive(&mut c, &z, &x, &y, 2.0, 0.5, 0.5, nv * (nv + 1) / 2, false);
+        let mut lic = garbage(nv);
+        c.λ_inv_circ_op(&mut lic, &x);
+        (ok, lam, rr, ri, wz, wits, hsz, o, c.Hs_is_diagonal(), l1, l2, su, ss, svt, isq, lic)
     });
-    let Some((ok, lam, rr, ri, wz, wits, hsz, o, diag, l1, l2, su, ss, svt, isq)) = r else { g.sink.case("psd_scaling", input, "1%N".into(), &[tag, "panic"]); return; };
+    let Some((ok, lam, rr, ri, wz, wits, hsz, o, diag, l1, l2, su, ss, svt, isq, lic)) = r else { g.sink.case("psd_scaling", input, "1%N".into(), &[tag, "panic"]); return; };
     let fin = |v: &[f64]| v.iter().all(|x| x.is_finite());
     if !(fin(&l1) && fin(&l2) && fin(&su) && fin(&ss) && fin(&svt) && fin(&isq)) {
+        g.sink.case("psd_scaling", input, "1%N".into(), &[tag, "nonfinite"]);
+        return;
+    }
+    if !(fin(&lic) && fin(&o.aff) && fin(&o.off) && fin(&o.shift) && fin(&o.circ) && fin(&o.wx) && fin(&o.winvx)) {
         g.sink.case("psd_scaling", input, "1%N".into(), &[tag, "nonfinite"]);
         return;
     }
@@ -201,8 +207,9 @@ fn psd_case(g: &mut Gen, S: &Mat, Z: &Mat, X: &Mat, Y: &Mat, tag: &str) {
     for k in 0..n { lamvec[k * (k + 3) / 2] = lam[k]; }
     let sc = maxabs(&lam);
     let coq = format!(
-        "(maxl [ofb {nd}; p_psd_factors (-36) {n} {S} {Z} {l1} {l2} {su} {ss} {svt} {isq} {r} {ri}; c_bitsame {lf} {ssf}; p_psd_nt (-30) {n} {r} {ri} {l} {S} {Z}; p_close2 (-26) {sc} {lv} {wz} {wits}; p_close2 (-26) {ssc} {sv} {hsz} {hsz}; p_hs_dense (-30) {hs} {x} {hsx}; p_inverse (-26) {xsc} {x} {ww} {ww2}; p_transpose (-30) {w1x} {y} {x} {wty}])",
-        l1 = cdylist(&l1), l2 = cdylist(&l2), su = cdylist(&su), ss = cdylist(&ss), svt = cdylist(&svt), isq = cdylist(&isq), ssf = cfllist(&ss), lf = cfllist(&lam),
+        "(maxl [ofb {nd}; c_psd_model (0x1p-30)%float {n} {rf} {rif} {lf} {xf} {yf} (0x1p+1)%float (0x1p-1)%float (0x1p-1)%float {wxf} {wif} {hsf} {hsxf} {afff} {offf} {shf} {cif} {licf}; p_psd_factors (-36) {n} {S} {Z} {l1} {l2} {su} {ss} {svt} {isq} {r} {ri}; c_bitsame {lf} {ssf}; p_psd_nt (-30) {n} {r} {ri} {l} {S} {Z}; p_close2 (-26) {sc} {lv} {wz} {wits}; p_close2 (-26) {ssc} {sv} {hsz} {hsz}; p_hs_dense (-30) {hs} {x} {hsx}; p_inverse (-26) {xsc} {x} {ww} {ww2}; p_transpose (-30) {w1x} {y} {x} {wty}])",
+        l1 = cdylist(&l1), l2 = cdylist(&l2), su = cdylist(&su), ss = cdylist(&ss), svt = cdylist(&svt), isq = cdylist(&isq), ssf = cfllist(&ss), lf = cfllist(&lam), rf = cfllist(&rr), rif = cfllist(&ri), xf = cfllist(&x), yf = cfllist(&y),
+        wxf = cfllist(&o.wx), wif = cfllist(&o.winvx), hsf = cfllist(&o.hs), hsxf = cfllist(&o.hsx), afff = cfllist(&o.aff), offf = cfllist(&o.off), shf = cfllist(&o.shift), cif = cfllist(&o.circ), licf = cfllist(&lic),
         nd = !diag, n = n, r = cdylist(&rr), ri = cdylist(&ri), l = cdylist(&lam), S = cdymat(S), Z = cdymat(Z),
         sc = cdy(sc), lv = cdylist(&lamvec), wz = cdylist(&wz), wits = cdylist(&wits),
         ssc = cdy(maxabs(&s)), sv = cdylist(&s), hsz = cdylist(&hsz),
